@@ -6,7 +6,10 @@ import (
 	"encoding/json"
 	"fmt"
 	"math/rand"
+	"os"
+	"path/filepath"
 	"strings"
+	"time"
 
 	"github.com/ja7ad/otp/verifharness/ev"
 	"github.com/ja7ad/otp/verifharness/ref"
@@ -115,4 +118,52 @@ func clone(b []byte) []byte {
 		return nil
 	}
 	return append([]byte{}, b...)
+}
+
+// ---- liveness of supervised child processes ----
+//
+// A parent that hands the exploration to child processes records nothing itself until a child is done; so that the
+// stall monitor does not mistake a long-running child for a wedge, a child rewrites its marker file as it makes
+// progress and the parent turns every change of that file into a beat.  A child that stops making progress stops
+// changing the file, and the parent's monitor ends the check as before.
+
+// childBeat is called by a child after each unit of work; it rewrites the marker about once per second.
+var childBeatN, childBeatLast int64
+
+func childBeat() {
+	childBeatN++
+	if childBeatN&1023 != 0 {
+		return
+	}
+	m := os.Getenv("VERIF_BEAT")
+	if now := time.Now().Unix(); m != "" && now != childBeatLast {
+		childBeatLast = now
+		os.WriteFile(m, []byte(fmt.Sprint(childBeatN)), 0o644)
+	}
+}
+
+// superviseBeat polls a child's marker until stop is closed and calls beat whenever its content changed.
+func superviseBeat(marker string, beat func(), stop <-chan struct{}) {
+	last := ""
+	for {
+		select {
+		case <-stop:
+			os.Remove(marker)
+			return
+		case <-time.After(2 * time.Second):
+		}
+		if b, err := os.ReadFile(marker); err == nil && string(b) != last {
+			last = string(b)
+			beat()
+		}
+	}
+}
+
+// beatMarker names a marker file for child k of this process (inside the per-run work directory).
+func beatMarker(k int) string {
+	dir := os.Getenv("VERIF_WORK")
+	if dir == "" {
+		dir = os.TempDir()
+	}
+	return filepath.Join(dir, fmt.Sprintf("beat.%d.%d", os.Getpid(), k))
 }
